@@ -10,16 +10,19 @@ LEVEL_TEXT = ("TLC checks on bounded instances of the handle/object specificatio
               "a second instance in which Derived objects own a member handle `next`, with cascading destruction and assignment of a handle from the "
               "member of the very object it designates) that the counts the operations maintain always equal creator + live handles (pool and member) "
               "+ explicit references, that an object dies exactly in the step releasing its last reference and exactly once per incarnation; a "
-              "further model shows conservation and single destruction for all interleavings of threads copying/dropping with atomic increments, "
-              "and TLC refutes the same model with a load/store increment (negative control, required). Binding: every transition of the complete "
+              "further model shows conservation and single destruction for all interleavings of threads copying / dropping references they own "
+              "and of threads acquiring at the same time through one borrowed reference (count 1, 2, 3) with atomic increments, and TLC refutes "
+              "the same model with a load/store increment and with a 'store 2 if the count reads 1' fast path (negative controls, required). Binding: every transition of the complete "
               "state graphs of the 3-slot instances (slot types BBD, BDD, const-Base/Base/Derived; thorough: also BBDD) and of the chain instance "
               "(2 slots, 2 member-owning objects), on three object layouts of the Derived type (single inheritance; the ref-counted base at a "
               "non-zero offset; a virtual base - the last two make derived-to-base conversions adjust the pointer, mixed-type handle pairs "
               "are compared in both operand orders after every conversion path), all histories up to a budgeted length and seeded random walks are replayed on the real IntrusivePtr/RefCountedObject with "
               "use counts, destructor log, handle and member contents and comparisons compared after every step - under ASan+UBSan with really "
               "freed pointees (memory errors become crash events) and, for the chain instance, also without sanitizers on quarantined pointee "
-              "storage (early destruction shows as values); random 300-step executions over 6 slots / 4 objects and multi-threaded copy/drop "
-              "bursts (also under TSan) are validated by TLC trace specifications")
+              "storage (early destruction shows as values); random 300-step executions over 6 slots / 4 objects, multi-threaded copy/drop "
+              "bursts and thousands of rounds in which 2-4 threads leave a spin barrier and acquire through one borrowed reference to an "
+              "object whose count is exactly 1 (raw-pointer constructor, copy of one shared handle, refInc; quarantined pointee storage; also "
+              "under TSan) are validated by TLC trace specifications")
 LEVEL_NOTE = ("bounded: exhaustive parts use 2 objects x 2-4 slots, <= 1-2 outstanding explicit references, one member handle per Derived object "
               "(chains of length 2, self loops and 2-cycles; longer chains only in the recorded random executions with 4 objects); the concurrent "
               "model is checked for 3 threads x <= 3-4 operations, the real concurrent executions are sampled (not schedule-controlled) and judged "
@@ -181,8 +184,8 @@ def conversion_compare_paths(ag, meta, rnd, per_kind):
 
 def gen_histories(chk, policy, budget, K_max, walks, walk_len, seed, tag, cfg="RefCountGen.cfg", layout="single", meta=None, conv=0):
     ag, r = build_graph_from_edges(chk, policy, tag, cfg, layout)
-    chk.add_model("RefCountGen/%s[%s]" % (cfg, layout), r, "generation instance (policy %s): %d abstract states, %d abstract transitions"
-                  % (",".join("%s=%s" % (k, policy[k]) for k in KINDS), len(ag.states), ag.nedges))
+    model = ("RefCountGen/%s[%s]" % (cfg, layout), r, "generation instance (policy %s): %d abstract states, %d abstract transitions"
+             % (",".join("%s=%s" % (k, policy[k]) for k in KINDS), len(ag.states), ag.nedges))
     K = 1
     while K < K_max and adt.count_paths(ag, K + 1) <= budget:
         K += 1
@@ -196,7 +199,7 @@ def gen_histories(chk, policy, budget, K_max, walks, walk_len, seed, tag, cfg="R
         cp, cstats = conversion_compare_paths(ag, meta, random.Random(seed), conv)
         rw = rw + cp
         info["conversion_then_compare"] = cstats
-    return hs, cover, rw, info
+    return hs, cover, rw, info, model
 
 
 def replay_parallel(chk, exe, histories, tag, sig_prefix, isolate, meta, replay_info=None, nproc=12, timeout=1800):
@@ -576,9 +579,19 @@ def burst_events(obs):
     return ev
 
 
+def rounds_events(obs):
+    """One AcquireRounds observation -> events for RefCountConcTrace (format conversion only)."""
+    ev = [{"e": "RoundsStart", "threads": obs["threads"], "start": obs["start"], "how": obs["how"]}]
+    for o in obs["outcomes"]:
+        ev.append(dict(o, e="Round"))
+    ev.append({"e": "RoundsEnd", "rounds": obs["rounds"], "overlapping": obs["overlapping"]})
+    return ev
+
+
 def run_bursts(chk, exe, configs, tag, san):
-    """configs: list of Burst argument dicts; each becomes one isolated history.  Returns list of executions (event lists)."""
-    hists = [[{"a": "Burst", "arg": c}] for c in configs]
+    """configs: list of Burst / AcquireRounds argument dicts ("action" selects, default Burst); each becomes one isolated
+    history.  Returns list of executions (event lists)."""
+    hists = [[{"a": c.get("action", "Burst"), "arg": c}] for c in configs]
     res, rc, stderr, wall = adt.run_driver(exe, hists, tag, isolate=1, timeout=1200)
     execs = []
     for i, c in enumerate(configs):
@@ -597,6 +610,8 @@ def run_bursts(chk, exe, configs, tag, san):
             o = r["obs"][0]
             if "unexpected_exception" in o:
                 execs.append([{"e": "malformed", "what": o["unexpected_exception"]}])
+            elif c.get("action") == "AcquireRounds":
+                execs.append(rounds_events(o))
             else:
                 execs.append(burst_events(o))
     return execs, stderr, wall
@@ -614,7 +629,11 @@ def validate_bursts(chk, execs, configs, tag, san, stderr=""):
         e = ev.get("e")
         field = e if e in ("race", "crash", "malformed") else "trace-rejected@" + str(e)
         cfgc = configs[rj["exec"]]
-        mm = {"action": "ConcurrentBurst", "cls": "san=%s" % (san or "none"), "field": field}
+        if cfgc.get("action") == "AcquireRounds":
+            mm = {"action": "ConcurrentAcquire", "field": field,
+                  "cls": "start=%s,k=%s,how=%s,san=%s" % (cfgc.get("start"), cfgc.get("threads"), cfgc.get("how"), san or "none")}
+        else:
+            mm = {"action": "ConcurrentBurst", "cls": "san=%s" % (san or "none"), "field": field}
         what = "%s: burst %s rejected by RefCountConcTrace at event %d: %s" % (API, json.dumps(cfgc), rj["line"], json.dumps(ev)[:400])
         rep = {"kind": "burst", "property": chk.pid, "tag": tag, "san": san, "config": cfgc, "events": execs[rj["exec"]],
                "rejected_at": rj["line"]}
@@ -638,6 +657,33 @@ def burst_configs(rnd, quick):
     return cfgs
 
 
+def acquire_configs(rnd, quick, tsan=False):
+    """Series of rounds in which k threads that own nothing acquire a reference at the same moment through ONE borrowed
+    reference, from a count of exactly 1 (mostly) or 2, 3."""
+    R = (1000 if quick else 3000) if tsan else (3000 if quick else 20000)
+    cfgs = []
+    combos = [(2, 1, "raw"), (2, 1, "copy"), (2, 1, "refinc"), (3, 1, "mixed"), (4, 1, "mixed"), (2, 1, "mixed"),
+              (3, 2, "raw"), (2, 3, "copy"), (4, 2, "mixed")]
+    if tsan:
+        combos = [(2, 1, "raw"), (3, 1, "mixed"), (2, 2, "copy")]
+    elif not quick:
+        combos += [(3, 1, "raw"), (4, 1, "copy"), (3, 1, "refinc"), (2, 2, "refinc"), (4, 3, "raw")]
+    for k, start, how in combos:
+        cfgs.append({"action": "AcquireRounds", "threads": k, "start": start, "how": how, "rounds": R, "maxms": 4000 if quick else 8000})
+    return cfgs
+
+
+def acquire_guard(chk, execs, minimum):
+    """Vacuity guard: enough rounds in which the count was exactly 1 and at least two threads' acquisitions overlapped."""
+    n = rounds = 0
+    for ev in execs:
+        if ev and ev[0].get("e") == "RoundsStart" and ev[-1].get("e") == "RoundsEnd":
+            rounds += ev[-1]["rounds"]
+            if ev[0]["start"] == 1 and ev[0]["threads"] >= 2:
+                n += ev[-1]["overlapping"]
+    return n, rounds
+
+
 # ---------------------------------------------------------------------------
 def run(chk, replay=None):
     quick = chk.tier == "quick"
@@ -648,6 +694,7 @@ def run(chk, replay=None):
         "the driver's bookkeeping (which slot holds a handle, destructor log of the pointee types) is correct; object ids are recovered from pointers",
         "a moved-from handle may be empty, may keep a counted reference, or (plain move assignment) hold the destination's previous pointee; any of them must keep the books balanced",
         "concurrent executions are free-running: interleavings are sampled, judged at quiescent points and by stamp order, not enumerated",
+        "a lender keeps the reference it lends until every borrower has finished acquiring; useCount() is only read when no thread is operating",
     ]
     if replay:
         return do_replay(chk, replay)
@@ -660,9 +707,17 @@ def run(chk, replay=None):
              "the same with member handles (objects owning a handle, cascading destruction, assignment from a member of the target)"),
             ("RefCountConc", "RefCountConc.cfg" if quick else "RefCountConc_thorough.cfg", 8,
              "atomic inc/dec: conservation and single destruction under all interleavings"),
+            ("RefCountConc", "RefCountConcBorrow.cfg", 4,
+             "threads owning nothing acquire concurrently through the creator's reference from count 1: no reference lost"),
             ("RefCountConc", "RefCountConcSplit.cfg", 4, {"Conservation"}),
-            ("RefCountConc", "RefCountConcSplit2.cfg", 4, {"NotWhileReferenced", "NoUseAfterFree"})]
-    with ThreadPoolExecutor(max_workers=5) as ex:
+            ("RefCountConc", "RefCountConcSplit2.cfg", 4, {"NotWhileReferenced", "NoUseAfterFree"}),
+            # "sole owner" fast path in refInc (store 2 when the count reads 1): two concurrent acquisitions lose a reference
+            ("RefCountConc", "RefCountConcFastPath.cfg", 4, {"Conservation"}),
+            ("RefCountConc", "RefCountConcFastPath2.cfg", 4, {"NotWhileReferenced", "NoUseAfterFree"})]
+    if not quick:
+        jobs += [("RefCountConc", "RefCountConcBorrow2.cfg", 4, "the same from count 2"),
+                 ("RefCountConc", "RefCountConcBorrow3.cfg", 4, "the same from count 3, four threads")]
+    with ThreadPoolExecutor(max_workers=6) as ex:
         results = list(ex.map(lambda j: tla.run_tlc(os.path.join(SPEC, j[0] + ".tla"), os.path.join(SPEC, j[1]), workers=j[2], timeout=1500), jobs))
     chk.cov["negative_controls"] = []
     for (mod, cfg, _, what), r in zip(jobs, results):
@@ -671,11 +726,11 @@ def run(chk, replay=None):
             continue
         # negative control: the same model with the increment split into load and store MUST be refuted
         if r.violated not in what:
-            raise InfraError("negative control %s (increment as load/store) was not refuted by TLC (violated=%s error=%s): "
+            raise InfraError("negative control %s (non-atomic increment) was not refuted by TLC (violated=%s error=%s): "
                              "the invariants would be vacuous\n%s" % (cfg, r.violated, r.error, r.out[-1500:]))
         chk.cov["negative_controls"].append({"module": mod + "/" + cfg, "refuted_invariant": r.violated,
                                              "distinct_states": r.distinct, "depth": r.depth})
-        chk.log("negative control %s: load/store increment refuted by TLC (invariant %s, %d states)" % (cfg, r.violated, r.distinct))
+        chk.log("negative control %s: non-atomic increment refuted by TLC (invariant %s, %d states)" % (cfg, r.violated, r.distinct))
 
     # 2. sequential part, code -> spec probe, then spec -> code
     exe = build.build("drv_refcount", san="address,undefined")
@@ -709,12 +764,18 @@ def run(chk, replay=None):
         storm = False
         adjusted = {"same-object": 0, "different-objects": 0}
         convstats = {}
-        for u in plan:
+        # TLC generates the next universes while the current one is replayed
+        def generate(u):
+            m = u["meta"]
+            return gen_histories(chk, policy, u["budget"], 6, walks=u["walks"], walk_len=40, seed=chk.seed,
+                                 tag="c08-gen-" + m["slots"] + m["objs"] + m["layout"], cfg=u["cfg"], layout=m["layout"], meta=m, conv=u["conv"])
+        genpool = ThreadPoolExecutor(max_workers=3)
+        futures = [genpool.submit(generate, u) for u in plan]
+        for u, fut in zip(plan, futures):
             cfg, meta, budget, walks, modes = u["cfg"], u["meta"], u["budget"], u["walks"], u["modes"]
             uni = "%s/%s[%s]" % (meta["slots"], meta["objs"], meta["layout"])
-            hs, cover, rw, info = gen_histories(chk, policy, budget, 6, walks=walks, walk_len=40, seed=chk.seed,
-                                                tag="c08-gen-" + meta["slots"] + meta["objs"] + meta["layout"], cfg=cfg,
-                                                layout=meta["layout"], meta=meta, conv=u["conv"])
+            hs, cover, rw, info, model = fut.result()
+            chk.add_model(*model)
             allh = hs + cover + rw
             chk.count_actions(allh)
             classes |= set((st["a"], st.get("cls")) for h in cover for st in h[-1:])
@@ -748,6 +809,8 @@ def run(chk, replay=None):
                 n, wall, _ = replay_parallel(chk, drv, rest, tag, API, isolate=500, meta=dmeta, replay_info=rinfo)
                 chk.log("IntrusivePtr %s (%s storage): %d histories replayed (%d mismatching) in %.1fs" % (uni, mode, len(allh), n + n1, wall + wall1))
             if storm:
+                for f in futures:
+                    f.cancel()
                 break
             chk.cov["distinct_nontrivial"] += adtcheck._nontrivial_distinct(allh, MUTATORS | MEMBER_ACTIONS)
             if uni == "BBD/BD[single]":
@@ -760,6 +823,7 @@ def run(chk, replay=None):
                 walk = [h for h in cover if h[-1]["a"] == "CopyAssignFromMember" and h[-1].get("cls") == WALK_CLASS]
                 if walk:
                     chk.add_sample({"kind": "history", "object": "chain walk cur = cur->next on the last reference", "steps": min(walk, key=len)})
+        genpool.shutdown(wait=True)
         if not storm:
             chk.require_actions(sorted(MUTATORS | MEMBER_ACTIONS | {"Bool", "Arrow", "Compare"}))
         need = [("CopyAssign", "self,obj"), ("MoveAssign", "self,obj"), ("RawAssign", "arg=null,dst=obj"), ("MoveAssign", "src=null,dst=obj"),
@@ -827,13 +891,31 @@ def run(chk, replay=None):
     if not rej:
         burst_corruption_guard(chk, execs, rnd)
     chk.add_sample({"kind": "burst", "config": cfgs[0], "events": execs[0][:4]})
+    # concurrent acquisition through one borrowed reference, count exactly 1 (and 2, 3) when k threads acquire together
+    acfgs = acquire_configs(rnd, quick)
+    aexecs, astderr, wall = run_bursts(chk, exe_c, acfgs, "c08-acquire", "")
+    ov, nrounds = acquire_guard(chk, aexecs, 0)
+    chk.log("concurrent acquisition rounds: %d rounds in %d series, %d with count 1 and overlapping acquisitions, %.1fs" % (nrounds, len(acfgs), ov, wall))
+    acc, rej = validate_bursts(chk, aexecs, acfgs, "c08-acquire", "", astderr)
+    need_ov = 3000 if quick else 10000
+    if not rej and ov < need_ov:
+        raise InfraError("vacuity guard: only %d rounds with start count 1 and >= 2 overlapping acquisitions (need %d; machine too loaded?)" % (ov, need_ov))
+    chk.cov["acquisition_rounds"] = {"series": len(acfgs), "rounds": nrounds, "count1_overlapping": ov}
+    chk.add_sample({"kind": "acquisition-rounds", "config": acfgs[0], "events": aexecs[0]})
     exe_t = build.build("drv_refcount_conc", backend="Debug", san="thread", driver_dir="refcount")
     tcfgs = cfgs[:6] + cfgs[-(10 if quick else 60):]
     tcfgs = [dict(c, ops=min(c["ops"], 20000)) for c in tcfgs]
     execs_t, stderr_t, wall = run_bursts(chk, exe_t, tcfgs, "c08-burst-tsan", "thread")
     chk.log("concurrent bursts under TSan: %d executed in %.1fs" % (len(tcfgs), wall))
     validate_bursts(chk, execs_t, tcfgs, "c08-burst-tsan", "thread", stderr_t)
-    chk.cov["evaluations"] += len(cfgs) + len(tcfgs) + nexec
+    tacfgs = acquire_configs(rnd, quick, tsan=True)
+    aexecs_t, astderr_t, wall = run_bursts(chk, exe_t, tacfgs, "c08-acquire-tsan", "thread")
+    ov_t, nrounds_t = acquire_guard(chk, aexecs_t, 0)
+    chk.log("concurrent acquisition rounds under TSan: %d rounds, %d with count 1 and overlapping acquisitions, %.1fs" % (nrounds_t, ov_t, wall))
+    validate_bursts(chk, aexecs_t, tacfgs, "c08-acquire-tsan", "thread", astderr_t)
+    chk.cov["acquisition_rounds"]["tsan_rounds"] = nrounds_t
+    chk.cov["acquisition_rounds"]["tsan_count1_overlapping"] = ov_t
+    chk.cov["evaluations"] += len(cfgs) + len(tcfgs) + nexec + nrounds + nrounds_t
     chk.cov["concurrent_bursts"] = {"plain": len(cfgs), "tsan": len(tcfgs),
                                     "operations": sum(c["threads"] * c["ops"] for c in cfgs) + sum(c["threads"] * c["ops"] for c in tcfgs)}
     chk.cov["rule"] = ("histories = paths of TLC's complete state graph of the bounded instance (all paths up to the budgeted length, one shortest "
